@@ -368,6 +368,31 @@ pub fn ipp_instance<C: Cv>(inst: &Value, seed: u64, out: &mut Vec<Value>) -> Vec
         let r = ipp_verify_once(&dbl, 2 * n, &proof, &p, &gf2, &hf2, "claimed-2n", out);
         expect("claimed-2n", r, false, &mut bad);
     }
+    // claimed lengths that are not powers of two: n - 1 (k >= 2), n + 1, and 0 with the proof's own rounds
+    {
+        let bp2 = BulletproofGens::<C::G>::new(2 * n, 1);
+        let g2: Vec<C::G> = bp2.G(2 * n, 1).cloned().collect();
+        let h2: Vec<C::G> = bp2.H(2 * n, 1).cloned().collect();
+        let mut claims = vec![n + 1, 0];
+        if k >= 2 {
+            claims.push(n - 1);
+        }
+        if n + 1 == 2 {
+            claims.retain(|c| *c != 2); // n = 1: n + 1 is a power of two, covered by claimed-2n
+            claims.push(3);
+        }
+        for c in claims {
+            let gfc: Vec<Fr<C>> = (0..c).map(|i| gf[i % n]).collect();
+            let hfc: Vec<Fr<C>> = (0..c).map(|i| hf[i % n]).collect();
+            let odd = IppRun::<C> { n: c, g: g2[..c.min(2 * n)].to_vec(), h: h2[..c.min(2 * n)].to_vec(), gf: gfc.clone(), hf: hfc.clone(), q, p, proof: proof.clone() };
+            if odd.g.len() != c {
+                continue;
+            }
+            let kind = format!("claimed-{}", if c == 0 { "0".to_string() } else if c == n + 1 { "n+1".to_string() } else if c + 1 == n { "n-1".to_string() } else { c.to_string() });
+            let r = ipp_verify_once(&odd, c, &proof, &p, &gfc, &hfc, &kind, out);
+            expect(&kind, r, false, &mut bad);
+        }
+    }
     let _ = run.n;
     let _ = &run.proof;
     let _ = (&run.gf, &run.hf, &run.p);
